@@ -25,6 +25,11 @@ type baseCockpit struct {
 	spinner *spinner.Spinner
 	charSet int
 	closeCh chan bool
+
+	// spinMu serialises the uses of the spinner's own lock with stopping the spinner: a stopped
+	// spinner may never give that lock back
+	spinMu  sync.Mutex
+	stopped bool
 }
 
 type cockpitOutputDecorator struct {
@@ -64,7 +69,10 @@ func (b *baseCockpit) add(t *task.Task) {
 		b.spinner = b.start()
 		go func() {
 			<-b.closeCh
+			b.spinMu.Lock()
+			b.stopped = true
 			b.spinner.Stop()
+			b.spinMu.Unlock()
 		}()
 	}
 }
@@ -91,9 +99,19 @@ func (b *baseCockpit) remove(t *task.Task) {
 	if t.Errored {
 		mark = aurora.Red("✗")
 	}
-	b.spinner.FinalMSG = fmt.Sprintf("%s Finished %s in %s\r\n", mark, aurora.Bold(t.Name), t.Duration())
-	b.spinner.Restart()
-	b.spinner.FinalMSG = ""
+	// the line is printed between two repaints, under the spinner's lock. Restarting the spinner for it
+	// can wedge the process: the spinner's goroutine exits without releasing that lock when it is
+	// stopped while it waits for it.
+	msg := fmt.Sprintf("\r\033[K%s Finished %s in %s\r\n", mark, aurora.Bold(t.Name), t.Duration())
+	b.spinMu.Lock()
+	defer b.spinMu.Unlock()
+	if b.stopped {
+		fmt.Fprint(b.w, msg)
+		return
+	}
+	b.spinner.Lock()
+	fmt.Fprint(b.w, msg)
+	b.spinner.Unlock()
 }
 
 func newCockpitOutputWriter(t *task.Task, w io.Writer, close chan bool) *cockpitOutputDecorator {
